@@ -470,6 +470,12 @@ func (w *w7World) finalStorage(rep *w7Replica) {
 			if src.freedByRename[n] || w.nameWasHeldByOther(n, holder.id) {
 				sig = "holder-unreachable/name-reused-after-rename"
 			}
+			if w.compactSkipDroppedLatest(rep, w7Key{format.MetricEvent, holder.id}) {
+				// ApplyEvent never saw the version that took the name back: the compact journal
+				// dropped it (equal compact content, older version kept) - consequence of the
+				// compact skip, not of the name index
+				sig = "holder-unreachable/compact-skip-dropped-latest"
+			}
 			r.Fail(w7Prop, "storage_name_lookup", sig, "%s: metric %d holds the name %q, GetMetaMetricByName returns nil", rep.name, holder.id, n)
 			return
 		case holder != nil && int64(got.MetricID) != holder.id:
@@ -547,6 +553,25 @@ func (w *w7World) finalStorage(rep *w7Replica) {
 			return
 		}
 	}
+}
+
+// compactSkipDroppedLatest: the storage is fed by a compact journal (directly, or it is an agent
+// behind compact journals), its journal still carries an older version of the entity, and the
+// source's latest version was delivered to that compact journal (for agents: to an
+// aggregator's compact journal) and dropped by the equal-content skip.
+func (w *w7World) compactSkipDroppedLatest(rep *w7Replica, key w7Key) bool {
+	if !rep.compactClass {
+		return false
+	}
+	latest := w.src.cur[key]
+	have, ok := rep.j.journal[journalEventID{typ: key.typ, id: key.id}]
+	if !ok || have.Version >= latest.Version || !w7SameCompact(have.Event, latest) {
+		return false
+	}
+	if rep.compactFlag {
+		return w.droppedBy[rep.name][key][latest.Version]
+	}
+	return w.dropped[key][latest.Version]
 }
 
 // nameWasHeldByOther: did a metric other than holder carry this name at some version?
